@@ -495,8 +495,14 @@ impl Sys {
                 if self.running {
                     self.server.world_mut().resource_mut::<RepliconServer>().set_running(false);
                     self.running = false;
-                    // the transport drops every connection
+                    // the transport drops every connection and, like a backend, removes its client
+                    // entities (the library's own `reset` does so only if a frame saw the server running)
                     for c in 0..self.clients.len() {
+                        if let Some(ce) = self.clients[c].server_side {
+                            if self.server.world().get_entity(ce).is_ok() {
+                                self.server.world_mut().entity_mut(ce).despawn();
+                            }
+                        }
                         self.cut(c);
                     }
                     writeln!(out, "= ok").unwrap();
